@@ -59,6 +59,19 @@ def encLen (c : Nat) : Nat := if c < 0x80 then 1 else if c < 0x800 then 2 else i
 def WFString (s : List B) : Prop :=
   ∃ cs : List (List B), s = cs.flatten ∧ ∀ c ∈ cs, WF c ∧ c ≠ [0#8]
 
+instance (b0 : B) : Decidable (wf1 b0) := by unfold wf1; infer_instance
+instance (b0 b1 : B) : Decidable (wf2 b0 b1) := by unfold wf2; infer_instance
+instance (b0 b1 b2 : B) : Decidable (wf3 b0 b1 b2) := by unfold wf3; infer_instance
+instance (b0 b1 b2 b3 : B) : Decidable (wf4 b0 b1 b2 b3) := by unfold wf4; infer_instance
+instance : (s : List B) → Decidable (WF s)
+  | [] => isFalse (by unfold WF; exact id)
+  | [b0] => by unfold WF; infer_instance
+  | [b0, b1] => by unfold WF; infer_instance
+  | [b0, b1, b2] => by unfold WF; infer_instance
+  | [b0, b1, b2, b3] => by unfold WF; infer_instance
+  | _ :: _ :: _ :: _ :: _ :: _ => isFalse (by unfold WF; exact id)
+instance (c : Nat) : Decidable (isScalar c) := by unfold isScalar; infer_instance
+
 /-- the first `n` bytes seen through an accessor -/
 def window (rd : Nat → B) (n : Nat) : List B := (List.range n).map rd
 
